@@ -113,6 +113,7 @@ def _functions(t):
         "neighbors": lambda x: [np.asarray(v) for v in md.compute_neighbors(x, 0.4, np.arange(5))],
         "neighborlist": lambda x: [np.concatenate([np.sort(v) for v in md.compute_neighborlist(x, 0.35, f)] + [np.zeros(0, int)]) for f in range(x.n_frames)],
         "contacts": lambda x: md.compute_contacts(x, "all", scheme="closest-heavy" if protein else "closest")[0],
+        "contacts-softmin": lambda x: md.compute_contacts(x, "all", scheme="closest-heavy" if protein else "closest", soft_min=True, soft_min_beta=5.0)[0],
         "rg": lambda x: md.compute_rg(x),
         "drid": lambda x: md.compute_drid(x, atom_indices=np.arange(0, n, 7)),
         "gyration": lambda x: md.compute_gyration_tensor(x),
